@@ -101,15 +101,21 @@ def lines_for(rng):
     return [gen.plain_line(rng) for _ in range(n)]
 
 
-def run_reader(fmt, doc, opts):
+_SHARED = {}
+
+
+def run_reader(fmt, doc, opts, shared=False):
+    """`shared`: use one long-lived reader object per format (a reader may be used for many documents)"""
     import pycaption
     try:
         if fmt == "srt":
-            cs = pycaption.SRTReader().read(doc)
+            rd = _SHARED.setdefault("srt", pycaption.SRTReader()) if shared else pycaption.SRTReader()
+            cs = rd.read(doc)
         elif fmt == "webvtt":
             cs = pycaption.WebVTTReader(ignore_timing_errors=opts.get("ign", True), time_shift_milliseconds=opts.get("shift", 0)).read(doc)
         elif fmt == "microdvd":
-            cs = pycaption.MicroDVDReader().read(doc)
+            rd = _SHARED.setdefault("microdvd", pycaption.MicroDVDReader()) if shared else pycaption.MicroDVDReader()
+            cs = rd.read(doc)
         lang = cs.get_languages()[0]
         return ("ok", [(c.start, c.end) for c in cs.get_captions(lang)], [len(c.nodes) for c in cs.get_captions(lang)])
     except Exception as e:
@@ -167,8 +173,8 @@ def explore(chk):
         else: op = b.add("mdvd.read", core.enc(bad))
         jobs.append((fmt, bad, opts, None, op, False))
     out = b.run() if chk.driver_ok else None
-    for (fmt, doc, opts, S, op, wf) in jobs:
-        I = run_reader(fmt, doc, opts)
+    for ji_, (fmt, doc, opts, S, op, wf) in enumerate(jobs):
+        I = run_reader(fmt, doc, opts, shared=(ji_ % 2 == 0 and wf))
         case = {"format": fmt, "document": doc, "options": opts, "impl": str(I[:2])}
         chk.case(key=(fmt, doc, json.dumps(opts, sort_keys=True)), nontrivial=bool(S),
                  sample=dict(case, spec=str(S)) if chk.count_get(fmt + "_wf") in (2, 30) and wf else None)
